@@ -167,6 +167,7 @@ func mergeUnrecognizedKeysIssues(leftIssues, rightIssues []core.ZodIssue) []core
 		result = append(result, core.ZodIssue{
 			ZodIssueBase: core.ZodIssueBase{
 				Code:    core.UnrecognizedKeys,
+				Path:    []any{},
 				Message: fmt.Sprintf("Unrecognized key(s) in object: %s", strings.Join(bothKeys, ", ")),
 			},
 			Keys: bothKeys,
